@@ -336,7 +336,8 @@ func (V *Verifier) verifyFuncMode(fi *FuncInfo, fct *FuncContract, ceUnroll int)
 		}
 	}
 	// typing facts for the fields of structs that parameters point to (one level)
-	for _, v := range st.vars {
+	for _, vo := range sortedObjs(st.vars) {
+		v := st.vars[vo]
 		if v.K == KInt && v.T != nil {
 			if s, structT := structOf(v.T); s != nil {
 				if _, isPtr := v.T.Underlying().(*types.Pointer); isPtr {
@@ -784,6 +785,11 @@ func (st *State) execGhost(c *Clause, pos token.Pos) {
 		v.S = st.define("ghost_"+c.Name, "Bool", v.S)
 	case KInt:
 		v.S = st.define("ghost_"+c.Name, "Int", v.S)
+	case KRaw:
+		// sequence-valued ghosts get a name too: selects over an inlined ite/store term are poor triggers
+		if strings.HasPrefix(v.S, "(") && v.Sort != "" {
+			v.S = st.define("ghost_"+c.Name, v.Sort, v.S)
+		}
 	}
 	st.ghost[c.Name] = v
 	if fc.rec != nil {
